@@ -1,5 +1,6 @@
 import ComposeVerif.Lemmas.C02StageNormalize
 import ComposeVerif.Lemmas.C02StageWalk
+import ComposeVerif.Lemmas.C02StageDefaults
 /-!
 # C02 — `stage_perm`: the loader stages do not depend on the order in which Go ranges over mappings
 
@@ -77,6 +78,18 @@ theorem resolvePaths_mapping_perm (t : CV.Paths.Table) (cfg : CV.Paths.Cfg) (p :
   refine ⟨h.1, fun r r' hr hr' => h.2 r r' ?_ ?_⟩
   · rw [← walkKVs_trav]; exact optP_some.mpr hr
   · rw [← walkKVs_trav]; exact optP_some.mpr hr'
+
+/-- **`transform.SetDefaultValues` as a whole tree walk** (every nesting level at once, with its four handlers): trees
+that are equivalent up to the order of mapping entries at any depth (`CV.Deep.Eqv`) get equivalent defaults, or both
+walks fail -/
+theorem setDefaults_stage_perm (tbl : List (List String × String)) (p : TPath) {v w : Val}
+    (h : CV.Deep.Eqv v w) (wv : CV.Deep.WF v) (ww : CV.Deep.WF w) :
+    DRel CV.Deep.Eqv (CV.C11.setDefaults tbl p v) (CV.C11.setDefaults tbl p w) := setDefaults_eqv tbl p h wv ww
+
+/-- in particular for `SetDefaultValues` itself, on the regenerated table -/
+theorem setDefaultValues_stage_perm {d d' : KVs} (h : CV.Deep.MEqv d d') (wd : CV.Deep.MWF d) (wd' : CV.Deep.MWF d') :
+    DRel CV.Deep.Eqv (CV.C11.setDefaultValues CV.Gen.defaultValues d) (CV.C11.setDefaultValues CV.Gen.defaultValues d') :=
+  setDefaults_eqv _ _ (CV.Deep.Eqv.map_iff.mpr h) (CV.Deep.WF.map_iff.mpr wd) (CV.Deep.WF.map_iff.mpr wd')
 
 /-- the shared loop shape, for any recursive call `g` -/
 theorem walker_loop_perm (g : String → Val → Option Val) {m m' : KVs} (hn : (keys m).Nodup) (hp : m'.Perm m) :
